@@ -200,6 +200,29 @@ fn check_c07_case(case: &BoundCase, env: &mut Env) -> Verdict {
         v.fail(format!("published status {} after a synchronised report", recs[0].status));
     }
     drop(recs);
+    // the two terms of the published bound belong to the same report: a later unsynchronised answer
+    // that arrives with another PHC value (the reference changed, the device's bound moved) leaves
+    // the published sum as it is
+    {
+        let mut t2 = tracking_of(r);
+        t2.leap_status = 3;
+        let other_phc = case.phc_prev.unwrap_or(0);
+        up.process_clock_update(t2, other_phc, ts(case.as_of_ns as i128 + 1_000_000_000));
+        v.sub_evals += 1;
+        let recs = sink.0.borrow();
+        if let Some(last) = recs.last() {
+            if recs.len() == 2 && last.bound as i128 != want {
+                v.fail(format!(
+                    "after an unsynchronised answer that came with a PHC error bound of {}, the published bound is {} instead of the {} (= {} + PHC {}) of the last synchronised report",
+                    other_phc,
+                    last.bound,
+                    want,
+                    bound,
+                    case.phc.unwrap_or(0)
+                ));
+            }
+        }
+    }
     // the PHC term end to end: the same report polled twice through the real poller loop while the
     // PHC error-bound file changes from phc_prev to phc; each published bound must carry the value
     // the file holds at that poll
@@ -264,7 +287,7 @@ impl Property for C07 {
     type Case = BoundCase;
     const ID: &'static str = "C07";
     fn rule() -> String {
-        "cases = tracking replies built at wire level (exponent and coefficient fields of the 32-bit chrony floats drawn separately, whole reply deserialised by chrony-candm): |offset| (random sign), delay, dispersion in [0, 2^20 s] incl. 0, the smallest positive value per exponent down to 2^-64 s, powers of two, normalised us..ms values; PHC error bound absent or in [0,2^50]. Oracle: S = (|offset|+disp+delay/2)*1e9 as an exact integer over 2^66; require 0 <= bound, S(1-2^-45) <= bound <= ceil(S(1+2^-45)), published = bound + PHC; for a quarter of the cases the same report is also polled twice through the real poller loop while the PHC error-bound file changes, and each published bound must carry the value the file holds at that poll. Non-trivial: offset < 0, or S not an integer, or all three terms non-zero.".into()
+        "cases = tracking replies built at wire level (exponent and coefficient fields of the 32-bit chrony floats drawn separately, whole reply deserialised by chrony-candm): |offset| (random sign), delay, dispersion in [0, 2^20 s] incl. 0, the smallest positive value per exponent down to 2^-64 s, powers of two, normalised us..ms values; PHC error bound absent or in [0,2^50]. Oracle: S = (|offset|+disp+delay/2)*1e9 as an exact integer over 2^66; require 0 <= bound, S(1-2^-45) <= bound <= ceil(S(1+2^-45)), published = bound + PHC, unchanged by a following unsynchronised answer that comes with another PHC value; for a quarter of the cases the same report is also polled twice through the real poller loop while the PHC error-bound file changes, and each published bound must carry the value the file holds at that poll. Non-trivial: offset < 0, or S not an integer, or all three terms non-zero.".into()
     }
     fn assumptions() -> Vec<String> {
         vec!["floating-point tolerance 2^-45 relative on the sum; values restricted to exponents -39..21 (2^-64 s .. 2^20 s) so that the result fits i64/f64".into()]
